@@ -968,6 +968,7 @@ func openWriter
     flags assumed
     assigns fPath, fsExists, fsDirty, fsContent
     ensures ret1 == nil ==> ret0 != nil && fresh(ret0) && wOK(ret0) && ret0.index != nil && ret0.reader != nil
+    ensures ret1 == nil ==> ret0.segment == seg && fsExists[seg.Log]
     ensures forall g *os.File :: !fresh(g) ==> fPath[g] == old(fPath[g])
     ensures forall p string :: p != seg.Log && p != seg.Index ==> fsDirty[p] == old(fsDirty[p]) && fsExists[p] == old(fsExists[p]) && fsContent[p] == old(fsContent[p])
 
@@ -1047,6 +1048,9 @@ func (*writer).Delete
     requires[sync_ok] wOK(w)
     assigns all
     assert[order_replace_first] distinct4(rs.Log, rs.Index, nseg.Log, nseg.Index) ==> fsExists[nseg.Log] && fsExists[nseg.Index] at call (Segment).Remove 4
+    // C05/C02: when everything was deleted, the new empty head named after NextOffset exists before the
+    // old head is removed (otherwise a crash in between lets NextOffset move backwards)
+    assert[order_newhead_first] fsExists[nwrt.segment.Log] at call (Segment).Remove 3
     assert[crash_nodup] distinct4(rs.Log, rs.Index, nseg.Log, nseg.Index) && nseg.Log != w.segment.Log ==> !(fsExists[nseg.Log] && fsExists[w.segment.Log]) at call (Segment).Remove 4
     requires[locks] rdLocksFree() && ixLocksFree()
 func (*log).Publish
